@@ -121,6 +121,51 @@ func semEqual(u *U, a, b *E) (bool, string) {
 						}
 					}
 				}
+				// second pass: selections that the substituted literals decide (an atom over
+				// ite(len(f(B)) == 0, ...) once B has become A) are resolved under the images
+				if feasible {
+					type lit struct {
+						k   Ref
+						pol bool
+					}
+					lits := make([]lit, len(vs))
+					for i, v := range vs {
+						at := u.atoms[v]
+						if composite {
+							at = u.Specialize(at, care)
+						}
+						lits[i] = lit{u.ToBool(u.Subst(at, sub)), asg[v]}
+					}
+					for i, v := range vs {
+						if !feasible {
+							break
+						}
+						// the images of the other literals
+						others := True
+						for j, l := range lits {
+							if j == i || l.k == lits[i].k || l.k == u.bdd.Not(lits[i].k) {
+								continue
+							}
+							if l.pol {
+								others = u.bdd.And(others, l.k)
+							} else {
+								others = u.bdd.And(others, u.bdd.Not(l.k))
+							}
+						}
+						if others == False {
+							feasible = false
+							break
+						}
+						at := u.atoms[v]
+						if composite {
+							at = u.Specialize(at, care)
+						}
+						k2 := u.ToBool(u.Specialize(u.Subst(at, sub), others))
+						if (k2 == True && !asg[v]) || (k2 == False && asg[v]) {
+							feasible = false
+						}
+					}
+				}
 				if !feasible {
 					continue
 				}
@@ -252,9 +297,68 @@ func runC17(c *Ctx) {
 			names = append(names, n)
 		}
 		sort.Strings(names)
+		// the opaque helpers at constant arguments, evaluated by the evaluator itself
+		pureAt := func(e *E) *E {
+			for round := 0; round < 3 && e != nil; round++ {
+				sub := map[string]*E{}
+				for _, cl := range u.Collect(e, func(x *E) bool {
+					return x.Op == "call" && (x.Aux == calleeName(ext) || x.Aux == calleeName(etld)) && len(x.Args) == 1 && x.Args[0].IsConst()
+				}) {
+					fn := ext
+					if cl.Aux == calleeName(etld) {
+						fn = etld
+					}
+					sv := g.EvalArgs(fn, []*E{cl.Args[0]}, nil)
+					if len(sv.Rets) > 0 {
+						if v := g.RetExpr(sv, 0); v != nil && v.IsConst() {
+							sub[cl.key] = v
+						}
+					}
+				}
+				if len(sub) == 0 {
+					break
+				}
+				e = u.Subst(e, sub)
+			}
+			return e
+		}
+		// equal as written, or equal in each of the cases "this URL is empty" (the parameter is the
+		// constant "", everything derived from it folds) / "it is not"
+		semEqualByCase := func(got, want *E) (bool, string) {
+			ok, why := semEqual(u, got, want)
+			if ok || got == nil || want == nil {
+				return ok, why
+			}
+			for _, prm := range []*E{ps[1], ps[0]} {
+				empty := u.ToBool(u.Eq(u.Len(prm), u.Int(0)))
+				inSupport := false
+				for _, at := range u.AtomsOf(empty) {
+					if u.Mentions(got, func(x *E) bool { return x == at }) {
+						inSupport = true
+					}
+				}
+				if !inSupport {
+					continue
+				}
+				toEmpty := map[string]*E{prm.key: u.Str("")}
+				gA, wA := pureAt(u.Subst(got, toEmpty)), pureAt(u.Subst(want, toEmpty))
+				gB, wB := u.Specialize(got, u.bdd.Not(empty)), u.Specialize(want, u.bdd.Not(empty))
+				okA, whyA := semEqual(u, gA, wA)
+				okB, whyB := semEqual(u, gB, wB)
+				if okA && okB {
+					return true, ""
+				}
+				if !okA {
+					why = "with " + u.Show(prm) + " empty: " + whyA
+				} else {
+					why = "with " + u.Show(prm) + " not empty: " + whyB
+				}
+			}
+			return false, why
+		}
 		for _, n := range names {
 			got := fieldVal(s, obj, n)
-			ok, why := semEqual(u, got, want[n])
+			ok, why := semEqualByCase(got, want[n])
 			c.Check(ok, rule[n], "NewRequest: Request."+n, nreq.Pos(), "= "+clip(u.Show(want[n]), 110), "the field is not derived as documented: "+why)
 		}
 		// ThirdParty
@@ -268,7 +372,7 @@ func runC17(c *Ctx) {
 		// compare under each combination of the two fallback tests (the domains are if-then-else values)
 		e1 := u.Eq(u.Call(calleeName(etld), strT, host), u.Str(""))
 		e2 := u.Eq(u.Call(calleeName(etld), strT, shost), u.Str(""))
-		semOK, semWhy := semEqual(u, tp, wantTP)
+		semOK, semWhy := semEqualByCase(tp, wantTP)
 		if os.Getenv("UFCHECK_DEBUG_C17") != "" {
 			fmt.Println("TP sem:", semOK, semWhy)
 		}
